@@ -548,6 +548,8 @@ pub fn hist_case(sink: &mut Sink, judge_fn: &str, idx: u64, kind: &str, steps: &
     if !sink.wants(idx) {
         return;
     }
+    let nsteps = steps.len();
+    let steps = &crate::apply_mask(steps)[..];
     let obs = run_history(steps, nonce);
     let input = csteps(steps);
     intern_begin();
@@ -587,7 +589,7 @@ pub fn hist_case(sink: &mut Sink, judge_fn: &str, idx: u64, kind: &str, steps: &
     }
     // non-trivial: at least one accepted and one rejected event, or a persist/drop step
     let nontrivial = (accepted > 0 && rejected > 0) || steps.iter().any(|s| !matches!(s, Step::Recv(_)));
-    sink.case(idx, kind, &judge, &input, nontrivial, || serde_json::json!({ "steps": csteps(steps) }));
+    sink.case(idx, kind, &judge, &input, nontrivial, || serde_json::json!({ "steps": csteps(steps), "nsteps": nsteps }));
 }
 
 pub fn vals(range: std::ops::Range<usize>) -> TracedValues<String> {
